@@ -11,6 +11,8 @@ import (
 func main() {
 	report.Main(map[string]*report.Check{
 		"C09": c09(),
+		"C10": c10(),
+		"C11": c11(),
 		"C12": c12(),
 		"C13": c13(),
 	})
